@@ -1209,12 +1209,12 @@ func init() {
 		Rule:   "generated models (6 types, collections nested to depth 4 with mixed member layouts, empty members, empty points, fixed/unfixed empty collections) x {XY,XYZ,XYM,XYZM} x {WKB, WKB NaN mode, EWKB} x {NDR,XDR} x SRID {0,1,4326,2^31-1,2^31,2^32-1,random} x hostile floats: Marshal and Write bytes == independent reference writer; Unmarshal of reference bytes == model (carve-outs applied in one place); Read through 4 reader split patterns (1-byte, random chunks, data+EOF, interleaved zero-length reads) with exact byte consumption, also over 2..5 concatenated geometries; a failing writer at every byte position (<=200 bytes) must surface its own error; hex variants; database/sql wrappers (7x7 Scan matrix per format, non-[]byte sources); unsupported layouts. distinct_nontrivial = distinct (mode, srid class, shape signature) / wrapper pairs",
 		Assume: []string{"reference WKB/EWKB codec in harness/ref, pinned by hand-checked PostGIS/ISO vectors (go test ./ref)", "byte-exact comparison uses member SRID 0 (the only state constructors and decoders produce)"},
 		Classes: []fw.Class{
-			{Name: "codec", Quick: 80000, Thorough: 2000000, Run: c03Codec},
-			{Name: "concatenated", Quick: 16000, Thorough: 300000, Run: c03Concat},
-			{Name: "sql", Quick: 24000, Thorough: 400000, Run: c03SQL},
-			{Name: "unsupported-layout", Quick: 2000, Thorough: 20000, Run: c03Unsupported},
-			{Name: "huge", Quick: 30, Thorough: 600, Chunk: 1, Run: c03Huge},
-			{Name: "observed-during-write", Quick: 8, Thorough: 64, Chunk: 1, Run: c03Observed},
+			{Name: "codec", Quick: 80000, Thorough: 6000000, Run: c03Codec},
+			{Name: "concatenated", Quick: 16000, Thorough: 900000, Run: c03Concat},
+			{Name: "sql", Quick: 24000, Thorough: 1200000, Run: c03SQL},
+			{Name: "unsupported-layout", Quick: 2000, Thorough: 60000, Run: c03Unsupported},
+			{Name: "huge", Quick: 30, Thorough: 1800, Chunk: 1, Run: c03Huge},
+			{Name: "observed-during-write", Quick: 8, Thorough: 192, Chunk: 1, Run: c03Observed},
 		},
 		Require: []string{"bytes_compared", "mode_wkb-ndr", "mode_wkb-xdr", "mode_wkb-nan-ndr", "mode_ewkb-ndr", "mode_ewkb-xdr", "empty_point_rejected_in_wkb_error_mode", "encoded_with_empty_point",
 			"reader_split_pattern_0", "reader_split_pattern_3", "writer_failure_positions", "hex_roundtrips", "concatenations", "sql_scan_matching", "sql_scan_wrong_type", "sql_non_bytes_rejected", "unsupported_layout_cases", "held_results_rechecked"},
